@@ -632,9 +632,12 @@ inductive HashOp
   /-- declaration site (field, `let`, parameter, return type) -/
   | declare
   /-- `x.f` where `f` is also the name of a hash-typed field but the receiver `x` could not be
-      typed and other, non-hash structs of the crate declare a field `f` too: assumed to be one of
-      those (the stated approximation of the scan; every such row is listed in the evidence) -/
+      typed and other, non-hash structs of the crate declare a field `f` too, *in an order-free
+      context* (a lookup, an insertion, a move): harmless whichever struct it is; every such row is
+      listed in the evidence -/
   | ambiguousForeign
+  /-- the same in an order-exposing context (iteration): fails closed -/
+  | ambiguousExposing
   /- order-exposing -/
   | iter | iterMut | intoIter | keys | values | valuesMut | intoKeys | intoValues | drain
   | retain | extendFrom | forIn | debugFmt | eqCompare
@@ -650,7 +653,8 @@ def orderFree : HashOp → Bool
   | .len | .isEmpty | .clear | .reserve | .clone | .collectInto | .moveTo | .passToScanned
   | .declare | .ambiguousForeign => true
   | .iter | .iterMut | .intoIter | .keys | .values | .valuesMut | .intoKeys | .intoValues | .drain
-  | .retain | .extendFrom | .forIn | .debugFmt | .eqCompare | .passToUnknown | .unknown => false
+  | .retain | .extendFrom | .forIn | .debugFmt | .eqCompare | .passToUnknown | .unknown
+  | .ambiguousExposing => false
 
 /-- One row of the generated table. -/
 structure HashUse where
@@ -662,9 +666,50 @@ structure HashUse where
   text : String
 deriving Repr
 
-/-- The check applied to the generated table. -/
+/-- An order-exposing use that was reviewed by hand and is harmless *for a stated reason*.  Keyed by
+file, binding and operation (not by line, so that unrelated edits do not invalidate it); at most
+`max` rows of the generated table may match an entry, so a second such use of the same binding is
+not excused. -/
+structure Reviewed where
+  file : String
+  binding : String
+  op : HashOp
+  max : Nat
+  why : String
+deriving Repr
+
+def reviewedBenign : List Reviewed := [
+  ⟨"harness/config.rs", "apply_program_retain_overrides::retain_by_type", .forIn, 1,
+   "the loop body updates `program_defs[upper(type_name)].vars` only; the map keys are the canonical \
+    declared names returned by `resolve_program_type_name`, so distinct keys touch distinct programs and \
+    the updates commute (`c05_reviewed_retain_overrides_order_free`)"⟩,
+  ⟨"debug/control.rs", "DebugState.frame_locations", .retain, 1,
+   "`retain` with the side-effect-free predicate `frames.iter().any(|f| f.id == *id)`: the retained \
+    set does not depend on the visiting order (`c05_reviewed_retain_pure_order_free`)"⟩
+]
+
+def Reviewed.matchesUse (r : Reviewed) (u : HashUse) : Bool :=
+  r.file == u.file && r.binding == u.binding && decide (r.op = u.op)
+
+/-- The check applied to the generated table: every use of a `std` hash container is order-free
+or matches a reviewed entry, and no reviewed entry is matched more often than it allows. -/
 def usesOk (us : List HashUse) : Bool :=
-  us.all fun u => u.hasher != .std || orderFree u.op
+  (us.all fun u => u.hasher != .std || orderFree u.op || reviewedBenign.any (·.matchesUse u)) &&
+  (reviewedBenign.all fun r => decide ((us.filter r.matchesUse).length ≤ r.max))
+
+/-- Model of the reviewed loop of `apply_program_retain_overrides` (harness/config.rs:189-199):
+program definitions as a function from the upper-cased type name to the retain policies of its
+variables (`none` = `Unspecified`); one iteration sets the unspecified ones of one program. -/
+def applyRetain (norm : String → String) (defs : String → Option (List (Option Nat)))
+    (e : String × Nat) : String → Option (List (Option Nat)) :=
+  fun key =>
+    if key = norm e.1 then (defs key).map (·.map fun r => match r with | none => some e.2 | some p => some p)
+    else defs key
+
+/-- The loop, visiting the table in its internal order. -/
+def applyRetainAll (norm : String → String) (defs : String → Option (List (Option Nat)))
+    (table : List (String × Nat)) : String → Option (List (Option Nat)) :=
+  table.foldl (applyRetain norm) defs
 
 /-! ## 6. The property on observed runs -/
 
